@@ -770,7 +770,21 @@ class Program:
                 if b.parent:
                     ch[(b.crate, b.parent)].append(b)
             self._children = ch
-        return self._children.get((body.crate, body.path), [])
+        own = self._children.get((body.crate, body.path), [])
+        if getattr(body, "inlined", None):
+            # closures built by statements spliced in from a helper (lib.inline) belong to this body as well
+            extra = []
+            for bl in body.blocks:
+                if not bl.get("inl"):
+                    continue
+                for s in bl["stmts"]:
+                    if s["k"] == "assign" and s["rv"]["k"] == "agg" and s["rv"].get("ak") == "closure":
+                        cb = self.bodies.get((body.crate, norm(s["rv"]["def"]), -1))
+                        if cb is not None and cb not in own and cb not in extra:
+                            extra.append(cb)
+            if extra:
+                return list(own) + extra
+        return own
 
     def closure_tree(self, body):
         out = [body]
@@ -831,9 +845,12 @@ class Program:
     # -- call graph
     def callers_of(self, *suffixes, crates=None):
         out = []
+        absorbed = getattr(self, "_absorbed", ())
         for b in self.all_bodies():
             if crates is not None and b.crate not in crates:
                 continue
+            if (b.crate, b.path) in absorbed:
+                continue    # a helper that only exists as copies inside its callers (lib.inline): its calls are found there
             for c in b.calls:
                 if any(_match(c.callee, s) for s in suffixes):
                     out.append(c)
